@@ -448,7 +448,98 @@ def drive_schedule(rec: Recorder, rng, mode: str, max_tells: int, max_ops: int, 
     return rec
 
 
-MODES = ["runner", "batch", "deep", "holdback"]      # "trickle" is used by the stress stream only
+def drive_straggler(rec: Recorder, rng, max_tells: int, max_ops: int, style=None):
+    """One (or two) of the first 17 abscissae is evaluated very slowly, everything else comes back in random order.
+
+    The first 17-point rule then never completes while the runner is already 39 and more points further: the two
+    halves (67 / 107 points further: the quarters) complete their 5-point rule and become the intervals the estimate
+    is built from, each still carrying the error inherited from the first interval (float max / 2, / 4).  Styles:
+      batch -- one request of 40..80 points on the fresh learner, all but the stragglers delivered in random order,
+               then small requests / deliveries until the stragglers arrive
+      wide  -- one request of 107..140 points; additional stragglers inside the 5-point / 9-point rules of the two halves,
+               so that the four quarters (or a half and two quarters) form the estimate with the inherited error
+      tasks -- 2..8 tasks, one of them stuck with the straggler, the others request and deliver one value at a time
+    """
+    l = rec.l
+    style = style or rng.choice(["batch", "batch", "batch", "wide", "tasks"])
+    # ordinal numbers (in hand-out order) of the abscissae that are held back; 0, 8 and 16 are the end points and the
+    # midpoint (they belong to the halves as well: holding one of them keeps a half incomplete, too)
+    inner = [i for i in range(17) if i not in (0, 8, 16)]
+    hold = set(rng.sample(inner, rng.choice([1, 1, 1, 2])))
+    if rng.random() < 0.15:
+        hold.add(rng.choice([0, 8, 16]))
+    if style == "batch":
+        first, ntasks = rng.randint(40, 80), 0
+        release_at = rng.randint(first, first + 60)
+    elif style == "wide":
+        first, ntasks = rng.randint(107, 140), 0
+        # 33..35 / 36..38 are the new abscissae of the 5-point rules of the left / right half (34 and 37 are the
+        # midpoints, which the quarters need); 39..42 / 73..76 those of the 9-point rules of the right / left half
+        r = rng.random()
+        if r < 0.5:        # no half completes a rule: the four quarters carry float max / 4 each
+            hold |= {rng.choice([33, 35]), rng.choice([36, 38])}
+        elif r < 0.8:      # one half and the two quarters of the other one: max/2 + max/4 + max/4
+            hold |= {rng.choice([33, 35, 36, 38]), rng.randint(39, 42), rng.randint(73, 76)}
+        else:
+            hold |= {rng.randint(39, 42), rng.randint(73, 76)}
+        release_at = rng.randint(first, first + 60)
+    else:
+        first = ntasks = rng.choice([2, 2, 3, 4, 8])
+        hold = {min(hold)} if ntasks == 2 else set(sorted(hold)[:ntasks - 1])
+        release_at = rng.randint(45, 110)
+    jitter = rng.choice([None, None, 0, 4, 12, 30])
+    inflight: list[float] = []
+    held: list[float] = []
+    handed = tells = 0
+    released = False
+    while len(rec.steps) < max_ops and tells < max_tells and not rec.dead:
+        if not rec.steps:
+            n = first
+        elif ntasks:
+            n = max(0, ntasks - len(inflight) - len(held))
+        else:
+            n = rng.randint(0 if inflight else 1, 8)
+        stop = False
+        if n:
+            st = rec.ask(n)
+            for x in st["out"]:
+                (held if handed in hold and not released else inflight).append(x)
+                handed += 1
+            stop = st["err"] != E_NONE
+        rng.shuffle(inflight)
+        if ntasks:
+            k = min(len(inflight), 1)
+        elif len(rec.steps) == 1:
+            k = len(inflight)                 # the whole first batch, except the stragglers: in random order, or
+            if jitter is not None:            # roughly in the order of submission (tasks take similar time)
+                pos = {x: i + rng.uniform(0, jitter) for i, x in enumerate(st["out"])}
+                inflight.sort(key=pos.get)
+        else:
+            k = rng.randint(0, len(inflight))
+        for x in inflight[:k]:
+            if rec.dead or tells >= max_tells:
+                break
+            rec.tell(x)
+            tells += 1
+        inflight = inflight[k:]
+        if held and (tells >= release_at or stop):
+            rng.shuffle(held)
+            released = True
+            for x in held:
+                if rec.dead:
+                    break
+                rec.tell(x)
+                tells += 1
+            held = []
+            release_at += rng.randint(5, 40)   # the run goes on for a while after the stragglers arrived
+        if stop or rec.dead:
+            break
+        if released and tells >= release_at:
+            break
+    return rec
+
+
+MODES = ["runner", "batch", "deep", "holdback"]      # "trickle" is used by the stress stream only, "straggler" by its own stream
 
 
 def drive_concrete(rec: Recorder, ops):
